@@ -714,3 +714,11 @@ V('c06-dot-zero-appended', 'C06', 'C06.R9',
    "        s = f'{obj:.11G}'\n        if s == 'NAN':\n            s = 'NaN'\n        elif s in ('INF', '-INF'):\n            pass\n        elif '.' not in s:\n            s = s + '.0'"), 'not-readable')
 V('c06-lowercase-g', 'C06', 'C06.R9',
   ('pywbem/_cim_types.py', "        s = f'{obj:.17G}'", "        s = f'{obj:.17g}'"), 'not-readable')
+
+# ---- C17.R5 / R2 extensions ---------------------------------------------------
+V('c17-negative-length-read', 'C17', 'C17.R5',
+  (LSF, "        if content_len < 0:\n", "        if content_len < -1:\n"), 'unbounded-read')
+V('c17-param-keyerror', 'C17', 'C17.R2',
+  (LSF, "            if len(params) != 1 or 'NewIndication' not in params:", "            if len(params) != 1:"), 'KeyError')
+V('c17-header-none', 'C17', 'C17.R2',
+  (LSF, "        content_encoding = self.headers.get('Content-Encoding', 'identity')", "        content_encoding = self.headers.get('Content-Encoding')"), 'AttributeError')
